@@ -92,6 +92,8 @@ OPTS = [
     ("DEFAULT id", lambda v: kw("DEFAULT") + ident(v), _o_default_id),
     ("DEFAULT 'str'", lambda v: kw("DEFAULT") + [("STRING_BASE", "'" + v + "'")], _o_default_str),
     ("DEFAULT NULL", lambda v: kw("DEFAULT", "NULL"), _o_default_null),
+    ("DEFAULT ('str')", lambda v: kw("DEFAULT") + [("LP", "("), ("STRING_BASE", "'" + v + "'"), ("RP", ")")], _o_default_str),
+    ("DEFAULT (id)", lambda v: kw("DEFAULT") + [("LP", "(")] + ident(v) + [("RP", ")")], _o_default_id),
     ("PRIMARY KEY", lambda v: kw("PRIMARY", "KEY"), _o_pk),
     ("UNIQUE", lambda v: kw("UNIQUE"), _o_unique),
     ("REFERENCES o", lambda v: kw("REFERENCES") + ident("o"), _o_ref),
@@ -104,8 +106,8 @@ NO = len(OPTS)
 # first by the `default id` production), two REFERENCES, REFERENCES directly followed by NOT
 # NULL-less forms are fine.  DEFAULT <id> followed by anything starting with an ID is excluded
 # because `default : default id` legitimately continues the default expression.
-DEFAULTS = {3, 4, 5}
-REFS = {8, 9, 10, 11}
+DEFAULTS = {3, 4, 5, 6, 7}
+REFS = {10, 11, 12, 13}
 
 TYPE = env_int("VF_TYPE", 0)
 O1 = env_int("VF_O1", -1)
@@ -453,11 +455,14 @@ PKS = {0, 1, 2, 3, 15, 16}
 I1 = env_int("VF_I1", -1)
 
 
+PK2 = env_int("VF_PK2", 0)  # inline PRIMARY KEY also on the third column (composite inline key, declaration order)
+
+
 def _items_case(i1, i2, inline_pk, inline_unique, inline_fk):
     cols_tokens = [ident(A) + ident("int") + (kw("PRIMARY", "KEY") if inline_pk else []),
                    ident(B) + ident("int") + ((kw("CONSTRAINT") + ident("g") + kw("REFERENCES") + ident("r") + pid("z")) if inline_fk else []),
-                   ident(C) + ident("int") + (kw("UNIQUE") if inline_unique else [])]
-    t = expected_table([plain_col(A), plain_col(B), plain_col(C)], [A] if inline_pk else [])
+                   ident(C) + ident("int") + (kw("UNIQUE") if inline_unique else []) + (kw("PRIMARY", "KEY") if (inline_pk and PK2) else [])]
+    t = expected_table([plain_col(A), plain_col(B), plain_col(C)], ([A, C] if PK2 else [A]) if inline_pk else [])
     t["columns"][0]["name"], t["columns"][1]["name"], t["columns"][2]["name"] = A, B, C
     if inline_unique:
         t["columns"][2]["unique"] = True
